@@ -10,7 +10,7 @@ way estimate_importances_minibatches does (local_coverage_object[k].append(v)).
 The final observables are computed by the REAL statements of task_ranking.outrank_task_conduct_ranking,
 located by ast and executed on the objects above:
   * the `if args.include_cardinality_in_feature_names == 'True':` block (the "-(card; cov)" annotation);
-  * the `with open(f'{args.output_folder}/value_repetitions.json', 'w')` block (the histogram);
+  * the statement that writes value_repetitions.json (the `with open(...)` block, or a helper call) (the histogram);
 and by the real core_utils.summarize_rare_counts (rare_values.tsv).  If the blocks cannot be located the
 runner reports extract_error and the check fails closed.
 """
@@ -103,6 +103,8 @@ def extract_blocks():
                 ann = pre + [st]
             elif isinstance(st, ast.With) and "value_repetitions.json" in ast.unparse(st.items[0].context_expr) and hist is None:
                 hist = [st]
+            elif isinstance(st, (ast.Expr, ast.Assign)) and "value_repetitions.json" in ast.unparse(st) and hist is None:
+                hist = [st]       # e.g. a helper call that dumps the dictionary
             for fld in ("body", "orelse", "finalbody"):
                 sub = getattr(st, fld, None)
                 if isinstance(sub, list) and sub and isinstance(sub[0], ast.stmt):
@@ -127,6 +129,17 @@ try:
 except Exception as e:  # fail closed in the harness
     ANN_CODE = HIST_CODE = TR_NS = None
     EXTRACT_ERROR = "%s: %s" % (type(e).__name__, e)
+
+
+def enc(v):
+    """a dictionary key / cell as JSON: str -> ["s", v], float nan -> ["nan"], None -> ["none"], anything else -> ["other", repr]"""
+    if isinstance(v, str):
+        return ["s", v]
+    if v is None:
+        return ["none"]
+    if isinstance(v, float) and v != v:
+        return ["nan"]
+    return ["other", repr(v)]
 
 
 def reset_globals():
@@ -172,16 +185,30 @@ def run_history(case, sizes):
         if len(set(sizes)) != 1 or sum(sizes) != len(rows):
             raise RuntimeError("pipeline family needs a uniform composition")
         path = os.path.join(OUT, "data.csv")
-        with open(path, "w", encoding="utf8", newline="") as f:
-            f.write(",".join(cols) + "\n")
-            for r in rows:
-                f.write(",".join(r) + "\n")
+        if case.get("source") != "ob-vw":
+            with open(path, "w", encoding="utf8", newline="") as f:
+                f.write(",".join(cols) + "\n")
+                for r in rows:
+                    f.write(",".join(r) + "\n")
         args.minibatch_size = sizes[0]
         args.subsampling = 1
-        args.data_source = "csv-raw"
+        fw = {}
+        delim = ","
+        if case.get("source") == "ob-vw":
+            # vw lines: label first, a namespace token "|n<j> xx<value>" per present cell (the parser drops the first two
+            # characters of the value part); an absent namespace is parsed as None
+            args.data_source = "ob-vw"
+            fw = {"n%d" % j: cols[j] for j in range(1, len(cols))}
+            delim = "\t"
+            with open(path, "w", encoding="utf8", newline="") as f:
+                f.write("header\n")
+                for r in rows:
+                    f.write(r[0] + " " + " ".join("|n%d xx%s" % (j, r[j]) for j in range(1, len(cols)) if r[j] is not None) + "\n")
+        else:
+            args.data_source = "csv-raw"
         ret = cr.estimate_importances_minibatches(
-            input_file=path, column_descriptions=list(cols), fw_col_mapping={}, numeric_column_types=set(),
-            batch_size=sizes[0], args=args, data_encoding="utf-8", cpu_pool=FakePool(), delimiter=",", logger=Log())
+            input_file=path, column_descriptions=list(cols), fw_col_mapping=fw, numeric_column_types=set(),
+            batch_size=sizes[0], args=args, data_encoding="utf-8", cpu_pool=FakePool(), delimiter=delim, logger=Log())
         pipeline_objs = (ret[2], ret[5], ret[6], ret[8])
         sizes = []
     for n in sizes:
@@ -246,7 +273,7 @@ def run_history(case, sizes):
             ary = np.array(list(v.default_counter.values()))
             out["hist"][k] = {str(x): int(len(np.where(ary > x)[0])) for x in [0] + [10 ** i for i in range(6)]}
     # --- rare values: storage and the real writer
-    out["rare"] = [[k[0], k[1], int(v)] for k, v in rare_storage.items()]
+    out["rare"] = [[k[0], enc(k[1]), int(v)] for k, v in rare_storage.items()]
     out["rare_file"] = None
     out["rare_writer_error"] = None
     if len(rare_storage) > 0:
@@ -266,17 +293,17 @@ def run_history(case, sizes):
     out["sketch"] = {c: {"len": int(len(cardinality_object[c])), "cold": bool(getattr(cardinality_object[c], "hll_flag", False)),
                          "warmup_size": int(getattr(cardinality_object[c], "warmup_size", 2 ** 18))} for c in cols}
     try:
-        out["counter"] = {c: [[k, int(v)] for k, v in item_counts[c].default_counter.items()] for c in cols}
+        out["counter"] = {c: [[enc(k), int(v)] for k, v in item_counts[c].default_counter.items()] for c in cols}
     except Exception:
         out["counter"] = {c: None for c in cols}
-    out["ignored"] = sorted([list(k) for k in cr.IGNORED_VALUES])
+    out["ignored"] = sorted([[k[0], enc(k[1])] for k in cr.IGNORED_VALUES], key=repr)
     return out
 
 
 results = []
 if True:
     for case in payload["cases"]:
-        vals = sorted({v for r in case["rows"] for v in r if v})
+        vals = sorted({v for r in case["rows"] for v in r if v} | {"nan", "None"})
         try:
             hashes = [[v, int((getattr(cr, 'internal_hash', None) or cu.internal_hash)(str(v)), 16)] for v in vals]
             herr = None
